@@ -4,7 +4,7 @@ _K = 'Trusted: Kani/CBMC, Verus/z3/vstd, the std and dependency code below the f
 
 TEXT = {
     'C01': {
-        'level_text': 'Bounded model checking of the real read_site (3 input columns, 2 populations; complete in the column->population table, the genotype result of every column incl. unselected ones and errors, and the pre-state of the accumulators) plus the complete genotype classification proof (C08). The oracle is the formula of the property statement. The end-to-end composition (parsing, Runner, printing) is not decided.',
+        'level_text': 'Bounded model checking of the real read_site (3 input columns, 2 populations; six configurations of column->population table and fixed results, each with one column ranging over all genotype results incl. missing, multiallelic and ploidy error, from a non-zero garbage pre-state of the accumulators) plus the complete genotype classification proof (C08). The oracle is the formula of the property statement. The end-to-end composition (parsing, Runner, printing) is not decided.',
         'design_ref': 'DESIGN.md 5/C01',
         'level_note': _K + 'sample::Map lookups are replaced by their contract (consistent table); shape rule 1+2*size, Runner::run and printing are assumed. Bounded in columns/populations.',
         'technique': 'Kani harness on the real read_site with contract stubs for the hash-map sample table (bounded) + Kani full-domain classification',
@@ -22,7 +22,7 @@ TEXT = {
         'technique': 'Kani full-domain validation harnesses + wiring harness with pmf stub (bounded) + Verus odometer contract',
     },
     'C04': {
-        'level_text': 'Verus proofs (unbounded, all shapes / axes / positions / call histories): an axis view addresses exactly the elements whose a-th index is i (get_axis contract + theorem_axis_view_element) and its iterator yields them in row-major order once, then None. Kani (bounded shapes): marginalize equals the brute-force sum over the removed axes for every listed axis subset in every order, joint = one-at-a-time, mass preserved; error cases complete for lists of up to 3 axes over usize.',
+        'level_text': 'Verus proofs (unbounded, all shapes / axes / positions / call histories): an axis view addresses exactly the elements whose a-th index is i (get_axis contract + theorem_axis_view_element) and its iterator yields them in row-major order once, then None. Kani (bounded shapes): marginalize equals the brute-force sum over the removed axes for every listed axis subset in every order, joint = one-at-a-time, mass preserved; nine rejected axis lists (duplicate, out of bounds, too many) return the documented error.',
         'design_ref': 'DESIGN.md 5/C04',
         'level_note': _K + 'Array::sum / marginalize_unchecked (iterator adapters) are bounded-checked only; sums on integer-valued cells.',
         'technique': 'Verus contracts on get_axis / view::Iter (representation invariant) + Kani harnesses on marginalize (bounded)',
@@ -52,7 +52,7 @@ TEXT = {
         'technique': 'Kani full-domain loop-free harnesses + Verus function contract',
     },
     'C09': {
-        'level_text': 'Column-order independence only: read_site depends on the input columns only through the column->population table, for every table (bounded: 3 columns, 2 populations). First-appearance id assignment, sample-list parsing and the error cases live behind hash maps and closures and are not decided.',
+        'level_text': 'Column-order independence only: read_site depends on the input columns only through the column->population table, on six tables incl. unselected columns and both column orders (bounded: 3 columns, 2 populations). First-appearance id assignment, sample-list parsing and the error cases live behind hash maps and closures and are not decided.',
         'design_ref': 'DESIGN.md 5/C09',
         'level_note': _K + 'sample::Map / population::Map are assumed by contract.',
         'technique': 'Kani harness on read_site with a symbolic column->population table (bounded)',
@@ -82,7 +82,7 @@ TEXT = {
         'technique': 'Kani harnesses on the npy reader pieces and format detection',
     },
     'C17': {
-        'level_text': 'Panic-freedom (overflow, bounds, unwrap/expect, division) of every function under contract: all six Verus units (unbounded, under their stated preconditions) and Kani harnesses aimed at the spots the property names -- format detection on short input (complete for 0..=8 bytes), marginalize/projection validation over all usize, the 14 statistics on degenerate and small shapes (bounded grid).',
+        'level_text': 'Panic-freedom (overflow, bounds, unwrap/expect, division) of every function under contract: all six Verus units (unbounded, under their stated preconditions) and Kani harnesses aimed at the spots the property names -- format detection on short input (complete for 0..=8 bytes), projection validation over all usize (two axes), nine rejected marginalization lists, Array::new on overflowing shapes (complete over all pairs of lengths), the 14 statistics on degenerate and small shapes (bounded grid).',
         'design_ref': 'DESIGN.md 5/C17',
         'level_note': _K + 'the process as a whole (noodles, nom, clap, main) is not under contract.',
         'technique': 'Verus/Kani safety obligations of the functions under contract',
@@ -94,7 +94,7 @@ TEXT = {
         'technique': 'Verus contract with a ghost byte log and sticky failure flag + Kani harness with a chunked BufRead',
     },
     'C19': {
-        'level_text': 'Verus proofs for all shapes, axes, positions and call histories: RemovedAxis get/len/index; Array::get_axis is Some iff axis and position are in range and the view addresses exactly the elements with a-th index i (theorem_axis_view_element); view::Iter yields the element of row-major rank k at call k, then None forever, with exact size_hint (representation invariant); AxisIter yields one view per position, then None, exact size_hint; flat<->multi-index bijection as mathematics. Kani (bounded shapes) for flat_index / index_from_flat / get / iter_indices and end-to-end views and sums.',
+        'level_text': 'Verus proofs for all shapes, axes, positions and call histories: RemovedAxis get/len/index; Array::get_axis is Some iff axis and position are in range and the view addresses exactly the elements with a-th index i (theorem_axis_view_element); view::Iter yields the element of row-major rank k at call k, then None forever, with exact size_hint (representation invariant); AxisIter yields one view per position, then None, exact size_hint; flat<->multi-index bijection as mathematics. Kani (bounded shapes) for flat_index / index_from_flat / get / iter_indices and end-to-end axis views.',
         'design_ref': 'DESIGN.md 5/C19',
         'level_note': _K + 'Array representation invariant assumed in Verus, checked by Kani on listed shapes; elements()/as_ref contracts assumed in two units.',
         'technique': 'Verus contracts (representation invariants, recursive odometer proof) + Kani harnesses (bounded)',
